@@ -3,8 +3,10 @@
 # run the property's check (quick), undo.  A fix whose reversal no longer applies (later commits touched
 # the same lines) is reported as such.
 cd /verif
+#   FIXLIST=<file with one commit per line> restricts the run (used by pfixmatrix.sh)
 grep '^fixed:' known_findings.txt | while read -r _ prop commit rest; do
   id=${prop#property=}
+  if [ -n "$FIXLIST" ] && ! grep -qx "$commit" "$FIXLIST"; then continue; fi
   cd /repo
   if [ -n "$(git status --porcelain)" ]; then echo "/repo not clean"; exit 2; fi
   if ! git show $commit | git apply -R --check 2>/dev/null; then echo "$id $commit: reversal does not apply cleanly (later commits touch the same lines)"; continue; fi
